@@ -623,6 +623,23 @@ func jidEqualRule(c *cx, id string) {
 		okd, _ := g.DominatedAny(pt, []string{"eq(builtin.len(p0.data),builtin.len(recv.data))", "eq(builtin.len(recv.data),builtin.len(p0.data))"})
 		okData = okData || okd
 	}
+	// ... and that for EVERY way to answer true (an identity fast path in front
+	// of the length comparison - "same backing array, same part lengths" -
+	// answers true for a JID and its Bare() view)
+	for _, rs := range g.Returns {
+		pt, _ := g.Where(rs)
+		if eq.Norm(rs.Results[0], &pt) == "false" {
+			continue
+		}
+		s := g.Formula(rs.Results[0], true, pt).String()
+		ll := has(s, "eq(p0.locallen,recv.locallen)", "eq(recv.locallen,p0.locallen)")
+		dl := has(s, "eq(p0.domainlen,recv.domainlen)", "eq(recv.domainlen,p0.domainlen)")
+		data := has(s, "bytes.Equal(recv.data,p0.data)", "bytes.Equal(p0.data,recv.data)", "eq(conv:string(recv.data),conv:string(p0.data))", "eq(conv:string(p0.data),conv:string(recv.data))")
+		if !data {
+			data, _ = g.DominatedAny(pt, []string{"eq(builtin.len(p0.data),builtin.len(recv.data))", "eq(builtin.len(recv.data),builtin.len(p0.data))"})
+		}
+		c.r.Check(id, eq, "a return of Equal that can be true", "T: every true answer compares both part lengths and is reached with equal data only", rs.Pos(), ll && dl && data, "this return can answer true without the full comparison: "+s)
+	}
 	c.r.Check(id, eq, "Equal compares both lengths", "T: Equal requires equal locallen AND equal domainlen, each between receiver and argument (equal bytes alone do not make equal addresses)", eq.Pos(), okLens, "the true result does not compare recv.locallen with p0.locallen and recv.domainlen with p0.domainlen")
 	c.r.Check(id, eq, "Equal compares the bytes", "T: the true result is reached only with equal data", eq.Pos(), okData, "")
 }
